@@ -12,6 +12,9 @@ import Gql.Proofs.ExecPrint2
 import Gql.Proofs.ExecPrint4
 import Gql.Proofs.ExecDoc3
 import Gql.Proofs.ParseWfType
+import Gql.Proofs.ParseWfValue
+import Gql.Proofs.ParseWfExec
+import Gql.Proofs.ParseWfDefs
 /-!
 # C08 — Printing a parsed document and parsing it again gives the same AST
 
@@ -221,6 +224,123 @@ example : Val.wf true (.list [.int [49], .str [97, 10, 98] true, .obj [([97], .e
         Or.inr ⟨101, [43], [49, 48], rfl, Or.inr rfl, Or.inr (Or.inl rfl), by decide⟩⟩, rfl, rfl⟩
 
 open Gql.Syntax in
+/-- **`parse_wf` for the VALUE and CONST VALUE entry points, no hypothesis on the source text.**
+Every tree `parse_value` (`c = false`) / `parse_const_value` (`c = true`) returns — any source text,
+any flags, any `max_tokens` — is the tree of a `Val` that is well formed *up to verbatim surrogates*
+(`Val.wfG (ChOk src)`): names are lexically Names and enum values differ from `true`/`false`/`null`
+(inversion of the lexer for NAME tokens), INT / FLOAT values are number texts of the grammar
+(`IsNum`; inversion of `read_number` through `readNumber_agree` and the number grammar:
+`numberCandidates_isNum`), no variable occurs in a constant value, every block string value is
+block-representable (`lex_block_representable`), and every code point of a string value is a
+Unicode scalar value or a surrogate that stands verbatim in the source text (`ChOk src`; inversion
+of `read_string` / `read_block_string` through the StringValue / BlockString grammar: escapes decode
+to scalar values only, a surrogate can only come from a leading+trailing pair the lexer accepts
+verbatim as one SourceCharacter). -/
+theorem parse_wf_value_surrogates (cfg : Cfg) (c : Bool) (src : List Nat) (d : Ast)
+    (h : parseSource (if c then .constValue else .value) cfg src = .ok d) :
+    ∃ v : Val, Val.wfG (ChOk src) c v ∧ d = v.toAst :=
+  parseSource_value_wfG cfg c src d h
+
+open Gql.Syntax in
+/-- **`parse_wf` for the VALUE and CONST VALUE entry points** (the converse of the typed-tree
+hypothesis of `roundtrip_value`).  Hypothesis `hsrc`: the source text holds no surrogate code point
+(decidable; true of every text decoded from UTF-8 / of every `str` without lone or paired surrogate
+code units — CPython keeps astral characters as single code points, so a `str` holds a surrogate
+only if it was put there deliberately, e.g. by `surrogatepass`).  Then every tree `parse_value` /
+`parse_const_value` returns — any flags, any `max_tokens` — is the tree of a well-formed `Val`
+(`Val.wf`, the hypothesis of `roundtrip_value`).  Without `hsrc` the statement is
+`parse_wf_value_surrogates`; the only trees outside `Val.wf` are those with a string value holding a
+surrogate pair copied verbatim from the text (`'"' + chr(0xD83D) + chr(0xDE00) + '"'` parses to the
+value `[0xD83D, 0xDE00]` on the implementation, and round-trips there too). -/
+theorem parse_wf_value (cfg : Cfg) (c : Bool) (src : List Nat) (hsrc : ∀ x ∈ src, isSurr x = false)
+    (d : Ast) (h : parseSource (if c then .constValue else .value) cfg src = .ok d) :
+    ∃ v : Val, Val.wf c v ∧ d = v.toAst :=
+  parseSource_value_wf cfg c src hsrc d h
+
+open Gql.Syntax in
+/-- **C08 for the VALUE and CONST VALUE entry points with no well-formedness hypothesis on the
+tree** — `roundtrip_full` instantiated for `parse_value` / `parse_const_value`: whatever source text
+without surrogate code points parses (no `max_tokens`, widths with `object ≥ 4` as generated)
+prints, without a crash, to text that parses to the same tree. -/
+theorem roundtrip_value_parsed (w : Widths) (hw : 4 ≤ w.object) (cfg : Cfg) (hm : cfg.maxTokens = none)
+    (c : Bool) (src : List Nat) (hsrc : ∀ x ∈ src, isSurr x = false) (d : Ast)
+    (h : parseSource (if c then .constValue else .value) cfg src = .ok d) :
+    ∃ text, printAst w d = .ok text ∧ parseSource (if c then .constValue else .value) cfg text = .ok d := by
+  obtain ⟨v, hwf, rfl⟩ := parse_wf_value cfg c src hsrc d h
+  exact roundtrip_value w hw cfg hm c v hwf
+
+-- non-vacuity: the text `[1, "a\u00e9", {a: B}, -0.5e+10]` holds no surrogate; a text with a
+-- verbatim pair does; admissible code points of a value read from such a text
+example : (∀ x ∈ Gql.Syntax.S "[1, \"a\\u00e9\", {a: B}, -0.5e+10]", isSurr x = false) ∧
+    ¬ (∀ x ∈ [34, 0xD83D, 0xDE00, 34], isSurr x = false) := by decide
+example : ChOk [34, 0xD83D, 0xDE00, 34] 0xD83D ∧ ChOk [34, 97, 34] 0x1F600 :=
+  ⟨Or.inr (by decide), Or.inl (by decide)⟩
+-- and source texts that parse exist: the printed text of any well-formed value (`roundtrip_value`)
+example (w : Gql.Syntax.Widths) (hw : 4 ≤ w.object) :
+    ∃ src d, Gql.Syntax.parseSource .constValue {} src = .ok d :=
+  let ⟨text, _, h⟩ := roundtrip_value w hw {} rfl true (.list [.int [49], .str [97] false]) (by
+    refine ⟨?_, ⟨by decide, fun h => by cases h⟩, trivial⟩
+    exact ⟨⟨[], [49], [], []⟩, ⟨Or.inl rfl, by decide, Or.inl rfl, Or.inl rfl⟩, rfl, rfl⟩)
+  ⟨text, _, h⟩
+
+open Gql.Syntax in
+/-- The invariant the converse direction (`parse_wf`) carries through the parser: the current token
+and every token still in the lexer's stream carry a value of their class (`VPS src`: NAME tokens
+valid names, INT / FLOAT tokens number texts, STRING / BLOCK_STRING tokens strings of admissible
+code points, block values block-representable).  It holds of the initial parser state of every
+source text — every token comes from `read_next_token` (`readNextToken_valOk`). -/
+theorem parser_state_invariant_init (src : List Nat) : VPS src (initState (streamOf src)) :=
+  ⟨ValOk.of_kind (by simp [initState, sofToken]) (by simp [initState, sofToken])
+    (by simp [initState, sofToken]) (by simp [initState, sofToken]) (by simp [initState, sofToken]),
+    vStream_streamOf src⟩
+
+open Gql.Syntax in
+/-- **`parse_wf` for selection sets (first layer of the document grammar; partial: not yet lifted to
+the DOCUMENT entry point).**  Source text without surrogates, `experimental_fragment_arguments` off
+(arguments on fragment spreads are not a node kind of the typed tree yet), any `max_tokens`, any
+fuel: whatever `parse_selection_set` returns from a parser state over the tokens of the text
+(`VPS src`, see `parser_state_invariant_init`; the invariant is handed on to the state after the
+selection set) is the tree of a non-empty list of well-formed selections (`Exec.selsWf`: fields with
+alias / arguments / directives / nested selection sets, fragment spreads with a name other than
+`on`, inline fragments; names valid, argument values well-formed `Val`s) — the hypothesis of
+`roundtrip_document_partial` for this layer.  Also proved at lemma level, for constant and
+non-constant positions: `parseArguments_vinv`, `parseDirectives_vinv` (Gql/Proofs/ParseWfExec.lean).
+Missing for `parse_wf_document`: variable definitions, operation / fragment definitions, type-system
+definitions and extensions, and the keyword dispatch of `parse_definition`. -/
+theorem parse_wf_selection_set_partial (cfg : Cfg) (hfa : cfg.fragArgs = false) (src : List Nat)
+    (hsrc : ∀ x ∈ src, isSurr x = false) (n : Nat) (s s' : PS) (a : Ast) (hs : VPS src s)
+    (h : selectionSet n cfg s = .ok (a, s')) :
+    VPS src s' ∧ ∃ sels : List Sel, Exec.selsWf sels ∧ sels ≠ [] ∧ a = Exec.ssAst sels :=
+  selectionSet_vinv src hsrc cfg hfa n s s' a hs h
+
+open Gql.Syntax in
+/-- **`parse_wf` for operation and fragment definitions (second layer; partial: not yet lifted to the
+DOCUMENT entry point).**  Same setting as `parse_wf_selection_set_partial`: whatever
+`parse_operation_definition` (shorthand `{ … }`, or description? operation-type name? variable
+definitions? directives? selection set) and `parse_fragment_definition` (description? `fragment`
+name `on` type directives? selection set) return is the tree of a well-formed `XDef`
+(`Exec.xdefWf false`: descriptions of scalar values and block descriptions block-representable,
+operation type from the table, names valid, fragment name other than `on`, variable definitions with
+well-formed parser-shaped types, well-formed constant default values and constant directives,
+non-empty well-formed selection sets) — the hypothesis `roundtrip_document_partial` puts on these
+definitions.  Uses `typeRef_vinv`, `parseDescription_vinv`, `parseVariableDefinitions_vinv`
+(Gql/Proofs/ParseWfDefs.lean).  Missing for `parse_wf_document`: type-system definitions and
+extensions, and the keyword dispatch of `parse_definition`. -/
+theorem parse_wf_executable_definition_partial (cfg : Cfg) (hfa : cfg.fragArgs = false) (src : List Nat)
+    (hsrc : ∀ x ∈ src, isSurr x = false) (n : Nat) (s s' : PS) (a : Ast) (hs : VPS src s)
+    (h : parseOperationDefinition cfg n s = .ok (a, s') ∨ parseFragmentDefinition cfg n s = .ok (a, s')) :
+    VPS src s' ∧ ∃ x : XDef, Exec.xdefWf false x ∧ a = Exec.xdefAst false x := by
+  rcases h with h | h
+  · exact parseOperationDefinition_vinv src hsrc cfg hfa n s s' a hs h
+  · exact parseFragmentDefinition_vinv src hsrc cfg hfa n s s' a hs h
+
+-- non-vacuity: the invariant holds of the state `parse` starts from, for every text
+example : Gql.Syntax.VPS (Gql.Syntax.S "{ a: f(x: 1) @d ...F ... on T { g } }")
+    (Gql.Syntax.initState (Gql.Syntax.streamOf (Gql.Syntax.S "{ a: f(x: 1) @d ...F ... on T { g } }"))) :=
+  parser_state_invariant_init _
+example : ∀ x ∈ Gql.Syntax.S "{ a: f(x: 1) @d ...F ... on T { g } }", isSurr x = false := by decide
+
+open Gql.Syntax in
 /-- **C08-3 `render_lex` for documents (stages 1–3).**  The text printed for a document whose
 definitions are
 
@@ -311,14 +431,20 @@ documents of executable definitions, type-system definitions and extensions
 (`roundtrip_document_partial`, stages 1–3: everything except arguments on fragment spreads and
 `extend directive`, both behind experimental flags), each for
 the typed well-formed trees, and with no hypothesis at all for the type entry point
-(`parse_wf_type`, `roundtrip_type_parsed`); **not proved**: those two node families, and the converse
-`parse_wf` for values and documents (every tree `parse` returns is one of the typed well-formed
-trees — besides NAME tokens, done, it needs the inversion of the lexer for INT/FLOAT token texts and
-for STRING values.  A STRING / BLOCK_STRING value is a list of scalar values unless the source text
-itself holds a leading surrogate immediately followed by a trailing surrogate inside the string —
+(`parse_wf_type`, `roundtrip_type_parsed`) and, for source texts without surrogate code points, for
+the value and const-value entry points (`parse_wf_value`, `roundtrip_value_parsed`; without that
+hypothesis `parse_wf_value_surrogates` gives the tree up to string values holding surrogates copied
+verbatim from the text); **not proved**: those two node families, the converse `parse_wf` for
+documents beyond its first two layers (`parse_wf_selection_set_partial`,
+`parse_wf_executable_definition_partial`: arguments, directives, selection sets, variable
+definitions, operation and fragment definitions are done; type-system definitions / extensions and
+the keyword dispatch of `parse_definition` are not), and the round trip of string values that hold a
+verbatim surrogate pair (a STRING / BLOCK_STRING value is a list of scalar values unless the source
+text itself holds a leading surrogate immediately followed by a trailing surrogate inside the string —
 `read_string` accepts such a pair verbatim (`is_supplementary_code_point`), a lone surrogate is a
 syntax error, and `\uD83D\uDE00` escapes decode to one scalar value; values with such a verbatim
-pair are exactly what `isScalar` in `printString_roundtrip` / `Val.wf` / `Exec.descWf` excludes).
+pair are exactly what `isScalar` in `printString_roundtrip` / `Val.wf` / `Exec.descWf` excludes; on
+the implementation they print verbatim and read back).
 What is proved: every string token of the printed text reads back to its value
 (`printString_roundtrip`, `block_roundtrip`, `block_indent_roundtrip`, `lex_block_representable`)
 and the type sub-grammar (`type_print_lex`).  On the implementation the relation below is
